@@ -50,7 +50,12 @@ def cases(tier, seed, ctx=None):
         elif kind == 6: hv = b"Basic " + tok + b"="; tag = "over-padded"
         elif kind == 7: hv = b"Basic " + tok[:3] + b"!" + tok[3:]; tag = "dirty-token"
         elif kind == 8: hv = b"Basic " + base64.b64encode(u + b":" + rng.choice(PASSES)); tag = "other-password"
-        elif kind == 9: hv = b"Basic " + base64.b64encode(u + p); tag = "no-colon"
+        elif kind == 9:
+            hv = b"Basic " + base64.b64encode(u + p); tag = "no-colon"
+            if rng.chance(1, 2):
+                # an account whose password equals its user name, and a colon-less payload that is just that word
+                w = rng.choice([b"admin", b"alice", b"x", b"p:w"])
+                table.append([w, w]); hv = b"Basic " + base64.b64encode(w); tag = "no-colon-user-equals-password"
         elif kind == 10: hv = None; tag = "missing"
         elif kind == 11: hv = rng.choice([b"Bearer ", b"Digest ", b"Basi ", b"Basicx "]) + tok; tag = "other-scheme"
         elif kind == 12: hv = rng.bytes(rng.range(0, 14), b"Basic QWxhZGRpbjpvcGVu=: \t"); tag = "random"
